@@ -3,7 +3,7 @@ from ..gens import *
 
 ID = "C02"
 LEAN_MODULE = "Ucfg.Props.C02"
-LEVEL_TEXT = 'Lexer/parser totality and escape theorems for every string, lookup-order theorems (root, Env latest first, resolvers latest first), unresolved-is-error; operator semantics and late binding are compared with the model and an independent evaluator (partial: not proved).'
+LEVEL_TEXT = 'Lexer/parser totality and escape theorems for every string, lookup-order theorems (root, Env latest first, resolvers latest first), unresolved-is-error, and the operator table for constant names (default_keeps_value, default_used_when_lookup_fails/empty, alternative_when_set/unset, required_keeps_value, required_raises_message) relative to what looking the name up does; late binding across merges is compared with the model and an independent evaluator (partial).'
 CORRESPONDENCE = "Vars.lexer/parseToks + Eval.{dynValue,resolveRef,refEval,evalExpr,reifyE} ~ VarExp settings read through Unpack / getters / Child"
 RULE = ("settings whose strings are built by a grammar of literals, ${ref}, ${ref:default}, ${ref:+alt}, ${ref:?msg}, nested references "
         "(in names and in operands, depth <= 4), $$ and $} escapes; each referenced name placed in the root config, in one of up to 3 "
